@@ -19,6 +19,8 @@ pub mod primes;
 pub use primes::*;
 pub mod divide;
 pub use divide::*;
+pub mod miller;
+pub use miller::*;
 pub mod chains;
 pub use chains::*;
 pub mod bnspec;
